@@ -90,8 +90,23 @@ def opt_sort(t: tuple):
     return _opt_sorts[key]
 
 
+_dict_sorts = {}
+
+
+def dict_sort(t: tuple):
+    """A dict used as a VALUE (element of a collection / value of another dict): the pair (domain, value array) as one tuple term."""
+    ks, vs = sort_of(t[1]), sort_of(t[2])
+    key = (str(ks), str(vs))
+    if key not in _dict_sorts:
+        nm = "Dict_" + "_".join(k.replace(" ", "").replace("(", "L").replace(")", "R").replace(",", "_") for k in key)
+        _dict_sorts[key] = z3.TupleSort(nm, [z3.ArraySort(ks, z3.BoolSort()), z3.ArraySort(ks, vs)])
+    return _dict_sorts[key]
+
+
 def sort_of(t: tuple):
     k = t[0]
+    if k == "dict" and len(t) >= 3 and t[1] != ("none",):
+        return dict_sort(t)[0]
     if k == "bool":
         return z3.BoolSort()
     if k == "int":
@@ -304,8 +319,8 @@ def to_term(v: V):
         if z3.is_app(isnone) and isnone.num_args() == 1 and isnone.decl().eq(s.recognizer(0)) and it.eq(s.accessor(1, 0)(isnone.arg(0))):
             return isnone.arg(0)
         return z3.If(isnone, s.constructor(0)(), s.constructor(1)(it))
-    if k == "dict" and len(v.t) == 3 and v.x is not None:
-        s, mk, accs = tuple_sort((("set", v.t[1]), _ArrT(v.t[1], v.t[2])))
+    if k == "dict" and v.x is not None:
+        s, mk, accs = dict_sort(v.t)
         if z3.is_app(v.x[0]) and v.x[0].num_args() == 1 and v.x[0].decl().eq(accs[0]) and v.x[1].eq(accs[1](v.x[0].arg(0))):
             return v.x[0].arg(0)
         return mk(v.x[0], v.x[1])
@@ -331,8 +346,8 @@ def from_term(t, term) -> V:
     if k == "opt":
         s = opt_sort(t[1])
         return V(t, (s.recognizer(0)(term), from_term(t[1], s.accessor(1, 0)(term))))
-    if k == "dict" and len(t) == 3:
-        s, mk, accs = tuple_sort((("set", t[1]), _ArrT(t[1], t[2])))
+    if k == "dict":
+        s, mk, accs = dict_sort(t)
         return V(t, (accs[0](term), accs[1](term)))
     if k == "obj" and t[1] in OBJ_LAYOUT:
         s = obj_sort(t[1])
